@@ -450,10 +450,13 @@ class IncludeHandler(Handler):
         if not argument:
             return
 
+        # "." and ".." segments name no directory of their own (/includes/sub/../a.rst is
+        # /includes/a.rst)
+        named_fileid = FileId(argument.lstrip("/")).collapse_dots()
+        argument = ("/" if argument.startswith("/") else "") + named_fileid.as_posix()
         include_slug = clean_slug(argument)
         # The argument usually names a file with its extension: that very file wins over
         # another one which differs from it only in the extension
-        named_fileid = FileId(argument.lstrip("/"))
         include_fileid = (
             named_fileid
             if named_fileid in self.pages
